@@ -383,7 +383,12 @@ fn main() {
                 Err(msg) => {
                     report.case(&canon, false);
                     report.oracle_failure(i, "", &format!("engine panicked with injection at {}: {}", k, msg), json!({"manifest": desc, "k": k}));
+                    // fresh ledger; account allocation is deterministic, so the manifests' addresses stay valid
                     sim = LedgerSimulatorBuilder::new().build();
+                    for a in accts.iter() {
+                        let (pk, _sk, addr) = sim.new_allocated_account();
+                        assert!(pk == a.pk && addr == a.addr, "account allocation is not deterministic");
+                    }
                     break;
                 }
             };
